@@ -195,7 +195,7 @@ def solve_case(case, workdir, prop_id, want_trace=True):
                 r['covered'].append(tag)
         elif st == 'FAILURE':
             r['failures'].append({'pid': pid, 'desc': desc, 'kind': kind, 'owner': owner, 'tag': tag, 'line': line})
-    if unknown:
+    if unknown and not r['failures']:
         r['status'] = 'inconclusive'
         r['detail'] = 'solver returned UNKNOWN for some property'
     elif r['reach_missing']:
@@ -417,36 +417,44 @@ def run_property(prop, tier, cases, jobs=None, meta=None, only=None, keep=False)
                     other_prop.append((owner, r, f))
                     continue
                 violations.append((r, f))
-        # --- replay violations
+        # --- replay violations: one replay file (and one VIOLATION line) per case
         rep_dir = os.path.join(VERIF, 'replays', prop)
         vio_lines = []
         mismatch = []
-        done_tags = set()
+        by_case = {}
         for r, f in violations:
+            by_case.setdefault(r['_case'].cid, (r, []))[1].append(f)
+        prio = {'assert': 0, 'builtin': 1, 'unwind': 2}
+        for cid in sorted(by_case):
+            r, fs = by_case[cid]
             c = r['_case']
-            key = (c.cid, f['tag'])
-            if key in done_tags:
-                continue
-            done_tags.add(key)
+            fs.sort(key=lambda f: (f.get('inputs') is None, prio.get(f['kind'], 3)))
             os.makedirs(rep_dir, exist_ok=True)
-            name = re.sub(r'[^A-Za-z0-9_.-]', '_', '%s__%s' % (c.cid, f['tag']))[:150]
+            name = re.sub(r'[^A-Za-z0-9_.-]', '_', cid)[:150]
             path = os.path.join(rep_dir, name + '.json')
-            nat = None
-            if f.get('inputs') is not None:
+            nat, used = None, fs[0]
+            for f in fs:
+                if f.get('inputs') is None:
+                    continue
                 nat = native_replay(c, f['inputs'], os.path.join(work, 'replay_' + name))
-            rec = {'property': prop, 'case': c.cid, 'harness': c.harness, 'defines': c.defines, 'failed': {k: f[k] for k in ('pid', 'desc', 'kind', 'tag', 'line')},
-                   'inputs': f.get('inputs'), 'cbmc_cmd': r.get('cbmc_cmd'), 'build_cmd': r.get('build_cmd'), 'native_replay': nat,
-                   'repo_head': git_head(REPO), 'how_to_replay': './vcheck %s --replay %s' % (prop, os.path.relpath(path, VERIF))}
+                used = f
+                if nat['outcome'] in ('assert_failed', 'sanitizer', 'timeout', 'crash'):
+                    break
             confirmed = nat is not None and nat['outcome'] in ('assert_failed', 'sanitizer', 'timeout', 'crash')
-            ub_only = f['kind'] in ('builtin', 'unwind')
-            rec['confirmed_natively'] = confirmed
+            ub_only = any(f['kind'] in ('builtin', 'unwind') for f in fs)
+            rec = {'property': prop, 'case': c.cid, 'harness': c.harness, 'defines': c.defines,
+                   'failed': {k: used[k] for k in ('pid', 'desc', 'kind', 'tag', 'line')},
+                   'all_failed_tags': sorted(set(f['tag'] for f in fs)),
+                   'inputs': used.get('inputs'), 'cbmc_cmd': r.get('cbmc_cmd'), 'build_cmd': r.get('build_cmd'), 'native_replay': nat,
+                   'confirmed_natively': confirmed,
+                   'repo_head': git_head(REPO), 'how_to_replay': './vcheck %s --replay %s' % (prop, os.path.relpath(path, VERIF))}
             with open(path, 'w') as fh:
                 json.dump(rec, fh, indent=1)
             if confirmed or ub_only:
                 vio_lines.append('VIOLATION property=%s replay=%s' % (prop, os.path.relpath(path, VERIF)))
-                sys.stderr.write('  case=%s tag=%s native=%s\n' % (c.cid, f['tag'], nat['outcome'] if nat else 'n/a'))
+                sys.stderr.write('  case=%s tags=%s native=%s\n' % (c.cid, ','.join(rec['all_failed_tags'])[:300], nat['outcome'] if nat else 'n/a'))
             else:
-                mismatch.append((r, f, nat, path))
+                mismatch.append((r, used, nat, path))
         # --- evidence
         n_oblig = len(results)
         n_dis = sum(1 for r in results if r['status'] == 'holds')
